@@ -35,6 +35,12 @@ fn from_lsp(p: lsp_types::Position) -> Pos {
 /// Checks one text. Returns (number of conversions checked, hash of the observations) or a
 /// description of the first disagreement.
 pub fn check_text(text: &str) -> Result<(u64, u64), (String, String)> {
+    check_text_at(text, None)
+}
+
+/// The same on the offsets `probes` only (and the positions and spans they give): for texts
+/// too long to take every offset.
+pub fn check_text_at(text: &str, probes: Option<&[usize]>) -> Result<(u64, u64), (String, String)> {
     let t = LineTable::new(text);
     let len = text.len();
     let mut n = 0u64;
@@ -42,7 +48,11 @@ pub fn check_text(text: &str) -> Result<(u64, u64), (String, String)> {
     let loc = Locator::try_from("file:///t.oal").unwrap();
 
     // 1. offsets -> positions -> offsets
-    for o in 0..=len + 2 {
+    let all_offsets: Vec<usize> = match probes {
+        Some(p) => p.to_vec(),
+        None => (0..=len + 2).collect(),
+    };
+    for o in all_offsets.iter().copied() {
         if o <= len && (!text.is_char_boundary(o) || t.inside_crlf(o)) {
             // No defined position: only "does not panic, stays in range" is required.
             let p = guard(|| subject::utf8_to_position(text, o)).map_err(|e| {
@@ -92,9 +102,32 @@ pub fn check_text(text: &str) -> Result<(u64, u64), (String, String)> {
 
     // 2. every position, including out-of-range ones
     let max_col = t.max_col();
-    for line in 0..=(t.lines.len() as u32 + 1) {
-        for character in 0..=(max_col + 2) {
-            let p = Pos { line, character };
+    let all_positions: Vec<Pos> = match probes {
+        Some(pr) => {
+            let mut v = Vec::new();
+            for o in pr.iter().filter(|o| **o <= len && text.is_char_boundary(**o) && !t.inside_crlf(**o)) {
+                let p = t.position(*o);
+                for dl in [0u32, 1] {
+                    for dc in [0u32, 1, 2] {
+                        v.push(Pos { line: p.line + dl, character: p.character + dc });
+                    }
+                }
+            }
+            v
+        }
+        None => {
+            let mut v = Vec::new();
+            for line in 0..=(t.lines.len() as u32 + 1) {
+                for character in 0..=(max_col + 2) {
+                    v.push(Pos { line, character });
+                }
+            }
+            v
+        }
+    };
+    {
+        for p in all_positions {
+            let (line, character) = (p.line, p.character);
             let got = guard(|| subject::position_to_utf8(text, lsp_pos(p))).map_err(|e| {
                 (
                     format!("panic position_to_utf8 {}", panic_site(&e)),
@@ -121,9 +154,13 @@ pub fn check_text(text: &str) -> Result<(u64, u64), (String, String)> {
     }
 
     // 3. spans: the range sent for a span selects exactly the span's text client-side
-    let bounds: Vec<usize> = (0..=len)
-        .filter(|o| text.is_char_boundary(*o) && !t.inside_crlf(*o))
-        .collect();
+    let bounds: Vec<usize> = match probes {
+        Some(p) => p.iter().copied().filter(|o| *o <= len).collect::<Vec<_>>(),
+        None => (0..=len).collect(),
+    }
+    .into_iter()
+    .filter(|o| text.is_char_boundary(*o) && !t.inside_crlf(*o))
+    .collect();
     let mut spans: Vec<(usize, usize)> = Vec::new();
     for (i, s) in bounds.iter().enumerate() {
         for e in bounds[i..].iter() {
@@ -174,6 +211,62 @@ pub fn check_text(text: &str) -> Result<(u64, u64), (String, String)> {
     Ok((n, hash_of(&obs)))
 }
 
+/// Texts whose line count or line length (in UTF-16 units) passes 65535.
+fn long_text(k: usize) -> String {
+    match k {
+        0 => format!("{}\u{e9}\u{1F609}a\nb\u{20ac}c", "a".repeat(65_534)),
+        1 => format!("{}\u{e9}\u{1F609}", "a\n".repeat(65_537)),
+        2 => format!("{}a\r\nb", "\u{1F609}".repeat(32_770)),
+        _ => format!("{}z", "\u{e9}\r\n".repeat(65_540)),
+    }
+}
+const LONG_TEXTS: usize = 4;
+
+/// The offsets of a long text that are probed: the first and last ones, and every one whose
+/// line or column lies within 6 of 65535.
+fn long_probes(text: &str) -> Vec<usize> {
+    let t = LineTable::new(text);
+    let len = text.len();
+    let mut v: Vec<usize> = (0..=len.min(4)).chain(len.saturating_sub(8)..=len + 2).collect();
+    let (mut line, mut col) = (0u32, 0u32);
+    let near = |x: u32| (65_529..=65_541).contains(&x);
+    let b = text.as_bytes();
+    let mut o = 0usize;
+    for c in text.chars() {
+        if (near(line) || near(col)) && !t.inside_crlf(o) {
+            v.push(o);
+        }
+        if c == '\n' {
+            line += 1;
+            col = 0;
+        } else if !(c == '\r' && b.get(o + 1) == Some(&b'\n')) {
+            col += c.len_utf16() as u32;
+        }
+        o += c.len_utf8();
+    }
+    v.sort();
+    v.dedup();
+    v
+}
+
+fn run_long(k: usize, sink: &mut Sink) -> Outcome {
+    let text = long_text(k);
+    let probes = long_probes(&text);
+    match check_text_at(&text, Some(&probes)) {
+        Ok((n, h)) => {
+            sink.count("transitions", n);
+            sink.count("states", 1);
+            Outcome::ok("agree", Some(h ^ hash_of(&k)))
+        }
+        Err((sig, summary)) => Outcome::bad(
+            "disagree",
+            sig,
+            summary.chars().rev().take(400).collect::<String>().chars().rev().collect(),
+            json!({"long": k}),
+        ),
+    }
+}
+
 fn run_text(text: &str, sink: &mut Sink) -> Outcome {
     match check_text(text) {
         Ok((n, h)) => {
@@ -201,11 +294,24 @@ impl Engine for C16 {
             Tier::Quick => 6,
             Tier::Thorough => 8,
         };
-        (0..=max)
+        let mut v: Vec<Phase> = (0..=max)
             .map(|n| Phase::new(&format!("texts of {n} symbols"), json!({"n": n})))
-            .collect()
+            .collect();
+        v.push(Phase::new(
+            "four texts with more than 65535 lines or UTF-16 units in a line, at the offsets around that line / column and at both ends",
+            json!({"long": true}),
+        ));
+        v
     }
     fn run_phase(&self, phase: &Phase, sink: &mut Sink) {
+        if phase.param["long"] == true {
+            for k in 0..LONG_TEXTS {
+                if sink.mine(k as u64) && !sink.expired() {
+                    sink.visit(k as u64, || json!({"long": k}), |s| run_long(k, s));
+                }
+            }
+            return;
+        }
         let n = phase.param["n"].as_u64().unwrap() as usize;
         let total = (SYMBOLS16.len() as u64).pow(n as u32);
         let mut idx = sink.shard;
@@ -226,6 +332,13 @@ impl Engine for C16 {
         }
     }
     fn replay(&self, case: &Value) -> Outcome {
+        if let Some(k) = case["long"].as_u64() {
+            let text = long_text(k as usize);
+            return match check_text_at(&text, Some(&long_probes(&text))) {
+                Ok(_) => Outcome::ok("agree", None),
+                Err((sig, summary)) => Outcome::bad("disagree", sig, summary.chars().rev().take(400).collect::<String>().chars().rev().collect(), case.clone()),
+            };
+        }
         let text = case["text"].as_str().unwrap_or("");
         match check_text(text) {
             Ok(_) => Outcome::ok("agree", None),
@@ -233,7 +346,7 @@ impl Engine for C16 {
         }
     }
     fn rule(&self) -> String {
-        "every text of <= n symbols over {a, é, €, 😉, LF, CRLF, U+2028, U+0085, FF}; per text every byte offset 0..=len+2, every position (line 0..=lines+1, character 0..=maxcol+2) and every span s<=e on symbol boundaries plus the end-of-input span len..len+1, through the real position_to_utf8 / utf8_to_position / utf8_range_to_position / CharSpan::from, compared with a line-table reference. A text is non-trivial when it holds a multi-byte character or a line break; distinct = distinct observation vectors".into()
+        "every text of <= n symbols over {a, é, €, 😉, LF, CRLF, U+2028, U+0085, FF}; per text every byte offset 0..=len+2, every position (line 0..=lines+1, character 0..=maxcol+2) and every span s<=e on symbol boundaries plus the end-of-input span len..len+1, through the real position_to_utf8 / utf8_to_position / utf8_range_to_position / CharSpan::from, compared with a line-table reference; plus four texts with more than 65535 lines or more than 65535 UTF-16 units in a line, on the offsets, positions and spans around that line / column and at both ends. A text is non-trivial when it holds a multi-byte character or a line break; distinct = distinct observation vectors".into()
     }
     fn assumptions(&self) -> Vec<String> {
         vec![
